@@ -26,8 +26,9 @@ def vlq(v):
             return out
 
 
-def throwing_program(rng, modified=True, chained=False):
-    """Returns (code, {function name or '<top>': 1-based line})."""
+def throwing_program(rng, modified=True, chained=False, evals=False):
+    """Returns (code, {function name or '<top>': 1-based line}).  With evals, the error is thrown from code compiled by eval
+    inside two functions of the file, so the stack has several frames whose eval origin lies in the file."""
     L = []
     def filler():
         for _ in range(rng.randrange(0, 4)):
@@ -42,6 +43,16 @@ def throwing_program(rng, modified=True, chained=False):
         L.append("  return s;")
     L.append("}")
     filler()
+    dline = None
+    if evals:
+        L.append("function deep(w) {")
+        if modified:
+            L.append("  const tag = 'd' + w;")
+        filler()
+        dline = "\n".join(L).count("\n") + 2
+        L.append("  return eval(\"(function inEvalB() { throw new Error(w); })()\");")
+        L.append("}")
+        filler()
     L.append("function thrower(x) {")
     if modified:
         L.append(rng.choice(["  const msg = 'p' + x;", "  let msg = 'p'; msg += x;", "  const msg = `p${x}`;"]))
@@ -50,8 +61,11 @@ def throwing_program(rng, modified=True, chained=False):
     filler()
     code_so_far = "\n".join(L)
     tline = code_so_far.count("\n") + 2
-    L.append(rng.choice(["  throw new Error(msg);", "  throw new Error(msg); // boom"]) if not modified else
-             rng.choice(["  throw new Error(msg);", "  throw new Error(msg + '!');", "  throw new Error(`${msg}!`);"]))
+    if evals:
+        L.append("  return eval(\"(function inEvalA() { return deep(msg); })()\");")
+    else:
+        L.append(rng.choice(["  throw new Error(msg);", "  throw new Error(msg); // boom"]) if not modified else
+                 rng.choice(["  throw new Error(msg);", "  throw new Error(msg + '!');", "  throw new Error(`${msg}!`);"]))
     L.append("}")
     filler()
     code_so_far = "\n".join(L)
@@ -59,6 +73,8 @@ def throwing_program(rng, modified=True, chained=False):
     L.append("thrower(helper('a', 'b'));")
     code = "\n".join(L) + "\n"
     lines = {"thrower": tline, "<top>": cline}
+    if evals:
+        lines["deep"] = dline
     off = 0
     if chained:
         off = rng.choice([100, 7, 1000])
@@ -92,8 +108,9 @@ def run(O, P):
         cfg = vlib.default_config(chainSourceMap=chained)
         fa, fb = "/app/src/a%d.js" % i, "/app/lib/b%d.js" % i
         steps, expect = [], []
+        use_evals = (i % 3 == 1)
         def rw(file, modified=True, ch=chained):
-            code, lines, off = throwing_program(rng, modified, ch)
+            code, lines, off = throwing_program(rng, modified, ch, evals=use_evals)
             steps.append({"op": "rewrite", "file": file, "code": code, "native": native(cfg, code, file)})
             return lines, off
         if kind in ("single", "chained"):
@@ -162,11 +179,21 @@ def run(O, P):
                     bad("prepareStackTrace threw: " + st[:200]); failed = True; break
                 fr = parse_frames(st) if isinstance(st, str) else [dict(f, fn=f.get("fn")) for f in (st or [])]
                 want_file = os.path.join(os.path.dirname(file), "orig.ts") if off else file
-                mine = [f for f in fr if f["file"] in (file, want_file)]
+                mine = [f for f in fr if f.get("file") in (file, want_file)]
                 byfn = {}
                 for f in mine:
-                    byfn.setdefault(f["fn"] if f["fn"] in ("thrower", "helper") else "<top>", f)
-                for fn in ("thrower", "<top>"):
+                    byfn.setdefault(f.get("fn") if f.get("fn") in ("thrower", "helper", "deep") else "<top>", f)
+                if mode == "string" and "deep" in lines and isinstance(st, str):
+                    origins = re.findall(r"eval at (\w+) \((.+?):(\d+):(\d+)\)", st)
+                    if len(origins) < 2:
+                        bad("no eval frames in the stack of a program that throws from eval code", stack=st); failed = True; break
+                    for (ofn, ofile, oline, ocol) in origins:
+                        if ofn in lines and (ofile != want_file or int(oline) != lines[ofn] + (off if off else 0)):
+                            bad("eval frame: the eval origin in %s is reported at %s:%s, the original position is %s:%d (history kind %s)"
+                                % (ofn, ofile, oline, want_file, lines[ofn] + (off if off else 0), h["kind"]), stack=st); failed = True; break
+                    if failed:
+                        break
+                for fn in (("deep",) if "deep" in lines else ()) + ("thrower", "<top>"):
                     f = byfn.get(fn)
                     exp_line = lines[fn] + (off if off else 0)
                     if f is None:
